@@ -6,8 +6,10 @@
 //!   harness gen <prop> <seed> <tier>  stdout: cases
 //!   harness oracle <prop>           stdin: "case | answer" lines, stdout: failing clauses
 mod eng_addr;
+mod eng_mach;
 mod eng_pte;
 mod gen_addr;
+mod gen_mach;
 mod gen_tbl;
 mod softcpu;
 mod util;
@@ -23,6 +25,7 @@ fn main() {
             let f: fn(&[u64]) -> Vec<i128> = match eng {
                 "addr" => eng_addr::run,
                 "pte" => eng_pte::run,
+                "mach" => eng_mach::run,
                 _ => panic!("unknown engine"),
             };
             for_each_line(|l| fmt_out(&f(&parse_line(l))));
@@ -37,6 +40,7 @@ fn main() {
             match prop {
                 "C03" | "C04" | "C05" | "C06" | "C07" => gen_addr::gen(prop, seed, thorough, &mut out),
                 "C08" | "C12" | "C14" | "C15" => gen_tbl::gen(prop, seed, thorough, &mut out),
+                "C11" | "C16" | "C17" | "C18" => gen_mach::gen(prop, seed, thorough, &mut out),
                 _ => panic!("unknown property"),
             }
         }
@@ -45,6 +49,7 @@ fn main() {
             match prop {
                 "C03" | "C04" | "C05" | "C06" | "C07" => gen_addr::oracle(prop),
                 "C08" | "C12" | "C14" | "C15" => gen_tbl::oracle(prop),
+                "C11" | "C16" | "C17" | "C18" => gen_mach::oracle(prop),
                 _ => panic!("unknown property"),
             }
         }
